@@ -2219,6 +2219,16 @@ def r96(ctx: Ctx) -> RuleReport:
             if not all(c in display_only or c.rsplit('.', 1)[-1] in ('__repr__', '__str__') for c in cs):
                 display_only.discard(fq_)
                 changed_ = True
+    # ... and that are in fact reached from a display method
+    reach_: Set[str] = set()
+    stack_ = [f for f in ctx.repo.all_functions() if f.name in ('__repr__', '__str__')]
+    while stack_:
+        f = stack_.pop()
+        for c in ctx.cg.callees(f):
+            if c.fq not in reach_:
+                reach_.add(c.fq)
+                stack_.append(c)
+    display_only &= reach_
     for fi in ctx.repo.all_functions():
         ann = fi.node.returns
         if ann is None:
